@@ -237,4 +237,14 @@ BkRun(n, d, t) ==
 Runaway ==
   /\ viol' = viol \cup {"C11_no_busy_wait"}
   /\ UNCHANGED <<cst, truth, exitT, now, det, known, op, opD, opN, t0, knownAtCall, nwait, slept, nsys, nkill, killOk, told, eintr>>
+
+\* A call of the library that was found to loop for ever (300 000 system calls into one call, long after time was let
+\* fly): it never returns.  Named for the property the call belongs to.
+Stuck ==
+  /\ viol' = viol \cup {"C11_no_busy_wait"}
+                  \cup (IF op \in {"wait", "poll", "wait_timeout", "exit_status", "pid"} THEN {"C09_call_never_returns"} ELSE {})
+                  \cup (IF op \in {"poll", "wait_timeout"} THEN {"C11_call_never_returns"} ELSE {})
+                  \cup (IF op \in {"terminate", "kill", "send_signal"} THEN {"C10_call_never_returns"} ELSE {})
+                  \cup (IF op = "drop" THEN {"C12_drop_never_returns"} ELSE {})
+  /\ UNCHANGED <<cst, truth, exitT, now, det, known, op, opD, opN, t0, knownAtCall, nwait, slept, nsys, nkill, killOk, told, eintr>>
 =============================================================================
